@@ -1,7 +1,7 @@
 (* C05 property theorems.  Statements + exact + Print Assumptions only.
    M = the node-vector trie of Model.v (what zipora calls Patricia storage), S = a duplicate-free list of keys. *)
 From ZV.Common Require Import Base Run.
-From ZV.C05 Require Import Model Spec ProofsBase ProofsInsert ProofsRemove ProofsRefine ProofsKeys ProofsLouds ProofsSpec.
+From ZV.C05 Require Import Model Spec ProofsBase ProofsInsert ProofsRemove ProofsRefine ProofsKeys ProofsLouds ProofsSpec ProofsClone.
 Open Scope N_scope.
 
 (* ptrie_refines_set: for EVERY history of insert / remove / contains / len / accepts / longest_prefix calls
@@ -171,3 +171,15 @@ Theorem critbit_stub_refuted : exists ops, Forall op_ok ops /\ c_run 0 ops <> s_
 Proof. exact critbit_stub_refuted_proof. Qed.
 Check critbit_stub_refuted : exists ops, Forall op_ok ops /\ c_run 0 ops <> s_run [] ops.
 Print Assumptions critbit_stub_refuted.
+
+(* impl Clone for ZiporaTrie (re-insert keys() into a fresh trie, copy the statistics) yields a trie for the same set *)
+Theorem clone_preserves : forall st S, Rel st S -> Rel (p_clone st) S.
+Proof. exact clone_preserves_proof. Qed.
+Check clone_preserves : forall st S, Rel st S -> Rel (p_clone st) S.
+Print Assumptions clone_preserves.
+
+(* ptrie_refines_set for histories that also contain clone steps (op code 8) *)
+Theorem ptrie_refines_set_with_clone : forall ops, Forall op_ok ops -> p_run_c true p_empty ops = s_run [] ops.
+Proof. exact ptrie_refines_set_with_clone_proof. Qed.
+Check ptrie_refines_set_with_clone : forall ops, Forall op_ok ops -> p_run_c true p_empty ops = s_run [] ops.
+Print Assumptions ptrie_refines_set_with_clone.
